@@ -59,7 +59,7 @@ func runSweep(prog *Program, fulls []string) []*sweepResult {
 		}
 		for _, o := range rep.Obls {
 			switch o.Kind {
-			case "bounds.idx", "bounds.slice", "nil.deref", "nil.mapwrite", "div.zero", "typeassert", "bounds.make", "panic":
+			case "bounds.idx", "bounds.slice", "nil.deref", "nil.mapwrite", "div.zero", "typeassert", "bounds.make", "panic", "variant.auto":
 				sr.Obls = append(sr.Obls, o)
 				all = append(all, o)
 			}
@@ -199,7 +199,7 @@ func registryCheck(cr *checkRun, regName, label string, fulls []string, safetyOn
 			claimable := true
 			if safetyOnly {
 				switch o.Kind {
-				case "bounds.idx", "bounds.slice", "nil.deref", "nil.mapwrite", "div.zero", "typeassert", "bounds.make", "panic":
+				case "bounds.idx", "bounds.slice", "nil.deref", "nil.mapwrite", "div.zero", "typeassert", "bounds.make", "panic", "variant.auto":
 				default:
 					claimable = false
 				}
@@ -214,6 +214,8 @@ func registryCheck(cr *checkRun, regName, label string, fulls []string, safetyOn
 			if writing || cr.tier == "thorough" || reg[o.Name] || reg[stableOblKey(o.Name)] || o.Kind == "frame.store" || (!safetyOnly && isClauseKind(o.Kind)) {
 				if !safetyOnly && cr.knownFindingFor(o.Name) != nil {
 					o.Budget = 1
+				} else if !safetyOnly && writing && isClauseKind(o.Kind) {
+					o.Full = true // a contract clause is claimed if the full race decides it, not only the 2 s first attempt
 				}
 				all = append(all, o)
 			}
